@@ -85,7 +85,7 @@ def split_axioms(s, sep):
         z3.Length(r) >= 1,
         join_sep(sep, r) == s,
         z3.ForAll([k], z3.Implies(z3.And(k >= 0, k < z3.Length(r)),
-                                  z3.Not(z3.Contains(r[k], sep))), patterns=[r[k]]),
+                                  z3.Not(z3.Contains(r[k], sep)))),
         z3.Implies(z3.Not(z3.Contains(s, sep)), r == z3.Unit(s)),
         # the first element is the text before the first separator
         z3.PrefixOf(r[0], s),
@@ -933,7 +933,7 @@ def listcomp(eng, st, e):
         eng.fact(s2, z3.Length(r) == z3.Length(xs.t))
         ft = box(fv) if fv.ty.kind == 'any' else fv.t
         eng.fact(s2, z3.ForAll([k], z3.Implies(z3.And(k >= 0, k < z3.Length(xs.t)),
-                                               r[k] == ft), patterns=[r[k]]))
+                                               r[k] == ft)))
         yield s2, V(List(fv.ty), r)
 
 
@@ -953,8 +953,7 @@ def listcomp_filter(eng, st, e, xs):
     r = z3.Const(eng.name('filt'), z3.SeqSort(sort_of(ety)))
     s2 = st.copy()
     eng.fact(s2, z3.ForAll([x], z3.Contains(r, z3.Unit(x)) ==
-                           z3.And(z3.Contains(xs.t, z3.Unit(x)), p),
-                           patterns=[z3.Contains(r, z3.Unit(x))]))
+                           z3.And(z3.Contains(xs.t, z3.Unit(x)), p)))
     eng.fact(s2, z3.Length(r) <= z3.Length(xs.t))
     yield s2, V(xs.ty, r)
 
@@ -1544,10 +1543,20 @@ def _append(eng, st, recv, args, kwargs, line):
 @libm(('rec',), 'get')
 def _rec_get(eng, st, recv, args, kwargs, line):
     ks = z3.simplify(args[0].t)
+    dflt = args[1] if len(args) > 1 else VNONE
     if not z3.is_string_value(ks):
+        # a table of constants looked up with a symbolic key: an if-then-else chain
+        vals = list(recv.t.values())
+        if args[0].ty.kind == 'str' and vals and all(v.ty == vals[0].ty for v in vals) and \
+                dflt.ty == vals[0].ty and vals[0].ty.kind in ('str', 'int', 'bool'):
+            out = dflt.t
+            for kk, v in recv.t.items():
+                out = z3.If(args[0].t == z3.StringVal(kk), v.t, out)
+            yield st, V(vals[0].ty, out)
+            return
         raise core.EngineError('record.get with symbolic key at line %d' % line)
     kk = ks.as_string()
-    yield st, recv.t.get(kk, args[1] if len(args) > 1 else VNONE)
+    yield st, recv.t.get(kk, dflt)
 
 
 @libm(('rec',), 'copy')
@@ -1762,8 +1771,7 @@ def _parse_qs(eng, st, args, kwargs, line):
     ty = Dict(STR, List(STR))
     dom, mp = qs_dom(v.t), qs_map(v.t)
     k = z3.String(eng.name('k!qs'))
-    eng.fact(st, z3.ForAll([k], z3.Implies(z3.Select(dom, k), z3.Length(z3.Select(mp, k)) >= 1),
-                           patterns=[z3.Select(mp, k)]))
+    eng.fact(st, z3.ForAll([k], z3.Implies(z3.Select(dom, k), z3.Length(z3.Select(mp, k)) >= 1)))
     eng.fact(st, card(dom) >= 0)
     yield st, V(ty, (dom, mp))
 
